@@ -17,3 +17,9 @@ pub use api::{Discovery, DiscoveryError};
 pub use builder::Builder;
 pub use config::DiscoveryConfig;
 pub use events::{DiscoveryEvent, SessionRole};
+
+/// Verification-only access to the crate-private backoff.
+#[cfg(p2panda_p2panda_verif)]
+pub mod verif {
+    pub use super::backoff::{Backoff, Config};
+}
